@@ -190,6 +190,41 @@ impl Prop for C06 {
         vec![("merge:nontrivial", tier.pick(600, 8000)), ("merge:k=0", tier.pick(100, 1500)), ("merge:empty-source", tier.pick(600, 8000))]
     }
 
+    fn extra(&self, _tier: Tier, _seed: u64, _ctx: &crate::runner::ExtraCtx) -> crate::runner::ExtraOut {
+        // bounded-exhaustive: EVERY assignment of the keys {"", 00, ff} to three sources (8^3 overlap patterns, incl. empty
+        // sources), for every merge function and two ways of adding the sources
+        let mut out = crate::runner::ExtraOut::default();
+        let keys: Vec<(crate::common::Blob, crate::common::Blob)> =
+            [vec![], vec![0u8], vec![0xffu8]].into_iter().map(|k| (crate::common::Blob::Lit(k), crate::common::Blob::Lit(vec![]))).collect();
+        let mut n = 0u64;
+        'all: for assignment in 0..512u32 {
+            for kind in MergeKind::ALL {
+                for add_style in [0u8, 2] {
+                    let sources = (0..3)
+                        .map(|s| SourceSpec {
+                            density: 2,
+                            mask: (0..3).map(|k| if assignment >> (s * 3 + k) & 1 == 1 { 0u8 } else { 255 }).collect(),
+                            conf: WConf::plain(),
+                        })
+                        .collect();
+                    let case = Case { universe: EntrySrc::List(keys.clone()), sources, kind, add_style, out_conf: WConf::plain() };
+                    let mut obs = Obs::default();
+                    let r = catch(|| self.run(&TopCase::Std(case.clone()), &mut obs)).unwrap_or_else(|p| Err(Fail::new("c06:harness-panic", p)));
+                    n += 1;
+                    if let Err(f) = r {
+                        out.violations.push((Fail::new(format!("{}:small-scope", f.signature), format!("key-to-source assignment {assignment:09b}, {:?}: {}", kind, f.msg)), serde_json::to_value(&TopCase::Std(case)).unwrap_or_default()));
+                        break 'all;
+                    }
+                }
+            }
+        }
+        out.evaluations = n;
+        out.nontrivial = n;
+        out.counters.insert("small_scope_merges".into(), n);
+        out.samples.push(json!({"kind": "small-scope", "keys": ["", "00", "ff"], "sources": 3, "assignments": 512, "merge_functions": 4, "merges": n}));
+        out
+    }
+
     fn run(&self, top: &TopCase, obs: &mut Obs) -> Check {
         let many_case;
         let (case, srcs, files): (&Case, Vec<Entries>, Vec<Vec<u8>>) = match top {
